@@ -4,11 +4,14 @@
 (* /repo/p/kademlia/dht.go: dhtIterate and DHTFindNode / DHTJoin / DHTGet / *)
 (* DHTPut (C20).                                                            *)
 (*                                                                          *)
-(* Nodes are small naturals.  The XOR distance of node m to the target/key  *)
-(* is m itself (the target is relabelled to 0, which XOR allows without     *)
-(* loss of generality: x -> x XOR target is a bijection that preserves the  *)
-(* order of distances).  Node 0 is the node whose id equals the target.     *)
-(* None (-1) is Go's zero PeerID ("no node").                               *)
+(* Nodes are small naturals.  The operations use peer ids only through      *)
+(* equality and DistanceLt(key, a, b), so a case fixes a distance function  *)
+(* dist: node m is at distance dist[m + 1] from the target/key.  With a     *)
+(* 32-byte key/target distinct ids have distinct distances (dist is the     *)
+(* identity; node 0 is the node whose id equals the target).  DHTGet and    *)
+(* DHTPut take arbitrary keys: with a key SHORTER than a peer id only the   *)
+(* first len(key) bytes are compared and distinct peers can TIE (dist is    *)
+(* not injective).  None (-1) is Go's zero PeerID ("no node").              *)
 (*                                                                          *)
 (* The adversary chooses what every contacted node answers: a peer list     *)
 (* (any sequence over the universe: cyclic, self-referential, duplicated,   *)
@@ -39,6 +42,7 @@ CONSTANTS
     Initials,   \* set of sequences over Nodes: params.Initial (duplicates allowed)
     Replies,    \* set of sequences over Nodes an adversarial responder may return
     Mins,       \* values of params.MinAccepted (put)
+    Dists,      \* distance functions (sequences of length N) used for get / put besides the identity
     ValClasses, \* value classes a get responder may return (subset of 0..4)
     VModes,     \* Validate functions the caller of get may pass (subset of 0..3)
     Orig        \* BOOLEAN: model the unrepaired code
@@ -54,17 +58,22 @@ Max2(a, b) == IF a > b THEN a ELSE b
 ToSet(s) == {s[i] : i \in 1..Len(s)}
 InSeq(s, x) == \E i \in 1..Len(s) : s[i] = x
 
-\* DistanceLt(key, a, b) for real nodes
-Lt(a, b) == a < b
+\* distance of node m under the distance function D (ids outside D are farther than everything)
+DOf(D, m) == IF (m + 1) \in DOMAIN D THEN D[m + 1] ELSE 1000 + m
+IdDist(n) == [i \in 1..n |-> i - 1]
+
+\* DistanceLt(key, a, b)
+Lt(D, a, b) == DOf(D, a) < DOf(D, b)
 
 \* slices.SortFunc(nodes, DistanceLt(key, a, b))          dht.go:212
-\* (equal elements are identical ids, so the unstable sort is deterministic up to identity)
-RECURSIVE ByDist(_)
-ByDist(q) ==
+\* Up to 12 elements pdqsort is an insertion sort, which is STABLE: peers that tie keep their order
+\* (longer queues with ties may be ordered differently by the real code: drift at most).
+RECURSIVE ByDist(_, _)
+ByDist(q, D) ==
     IF q = <<>> THEN <<>>
-    ELSE LET m == CHOOSE x \in ToSet(q) : \A y \in ToSet(q) : x <= y
-             i == CHOOSE i \in 1..Len(q) : q[i] = m /\ \A j \in 1..(i - 1) : q[j] # m
-         IN <<m>> \o ByDist(SubSeq(q, 1, i - 1) \o SubSeq(q, i + 1, Len(q)))
+    ELSE LET i == CHOOSE i \in 1..Len(q) :
+                      (\A j \in 1..Len(q) : DOf(D, q[i]) <= DOf(D, q[j])) /\ (\A k \in 1..(i - 1) : DOf(D, q[k]) > DOf(D, q[i]))
+         IN <<q[i]>> \o ByDist(SubSeq(q, 1, i - 1) \o SubSeq(q, i + 1, Len(q)), D)
 
 -----------------------------------------------------------------------------
 (* Responders *)
@@ -89,9 +98,9 @@ Accepts(vmode, val) ==
          [] vmode = 2 -> val \in {1, 4}
          [] OTHER -> FALSE
 
-Start(op, init, min, vmode) ==
+Start(op, init, min, vmode, dist) ==
     LET n == Width(op, init) IN
-    [op |-> op, min |-> min, vmode |-> vmode, n |-> n,
+    [op |-> op, min |-> min, vmode |-> vmode, dist |-> dist, n |-> n,
      pc |-> IF n < 1 THEN "panic" ELSE "iter",      \* dht.go:205  if n < 1 { panic(n) }
      queue |-> init,                                \* nodes
      visited |-> {},                                \* ids already handed to fn
@@ -107,9 +116,11 @@ Ask(s, node, r) ==
     [s EXCEPT !.order = Append(@, node),
               !.info = (node :> [fail |-> r.fail, accept |-> r.accept, val |-> r.val]) @@ @]
 
+FNClosest(s, node) == IF s.closest = None \/ Lt(s.dist, node, s.closest) THEN node ELSE s.closest
+
 \* DHTFindNode's callback                                  dht.go:31-55
 CbFindNode(s, node, r, bad) ==
-    LET c == IF s.closest = None \/ Lt(node, s.closest) THEN node ELSE s.closest
+    LET c == FNClosest(s, node)
         s1 == [s EXCEPT !.closest = c]
     IN IF c = Target THEN [s |-> s1, new |-> <<>>, cont |-> FALSE]
        ELSE LET s2 == Ask(s1, node, r) IN
@@ -126,11 +137,11 @@ CbJoin(s, node, r) ==
 
 \* DHTGet's callback                                       dht.go:120-139
 CbGet(s, node, r) ==
-    IF s.from # None /\ Lt(s.from, node) THEN [s |-> s, new |-> <<>>, cont |-> FALSE]
+    IF s.from # None /\ Lt(s.dist, s.from, node) THEN [s |-> s, new |-> <<>>, cont |-> FALSE]
     ELSE LET s1 == Ask([s EXCEPT !.contacted = @ + 1], node, r) IN
          IF r.fail THEN [s |-> s1, new |-> <<>>, cont |-> TRUE]
          ELSE LET c == IF Orig THEN node        \* F31: the last responder
-                       ELSE IF s.closest = None \/ Lt(node, s.closest) THEN node ELSE s.closest
+                       ELSE IF s.closest = None \/ Lt(s.dist, node, s.closest) THEN node ELSE s.closest
                   s2 == [s1 EXCEPT !.responded = @ + 1, !.closest = c,
                                    \* resp.Value != nil && params.Validate(resp.Value)
                                    !.from = IF Accepts(s.vmode, r.val) THEN node ELSE @]
@@ -145,7 +156,7 @@ CbPut(s, node, r) ==
          ELSE [s |-> [s2 EXCEPT !.accepted = @ + 1,
                                 \* (the unrepaired code compared with the zero id, whose distance the
                                 \*  model does not represent: Orig keeps the repaired comparison here)
-                                !.closest = IF @ = None \/ Lt(node, @) THEN node ELSE @],
+                                !.closest = IF @ = None \/ Lt(s.dist, node, @) THEN node ELSE @],
                new |-> r.reply, cont |-> TRUE]
 
 Callback(s, node, r, bad) ==
@@ -155,15 +166,15 @@ Callback(s, node, r, bad) ==
       [] s.op = "put" -> CbPut(s, node, r)
 
 \* the admission loop                                      dht.go:229-242
-RECURSIVE Admit(_, _, _, _)
-Admit(q, node, new, vis) ==
+RECURSIVE Admit(_, _, _, _, _)
+Admit(q, node, new, vis, D) ==
     IF new = <<>> THEN q
     ELSE LET x == Head(new) IN
-         Admit(IF /\ Lt(x, node)          \* only strictly closer peers
+         Admit(IF /\ Lt(D, x, node)       \* only strictly closer peers
                   /\ x \notin vis         \* never a peer that was contacted already (repair of F30)
                   /\ ~InSeq(q, x)         \* contains(nodes, newNode)
                THEN Append(q, x) ELSE q,
-               node, Tail(new), vis)
+               node, Tail(new), vis, D)
 
 \* what follows the loop in each operation                 dht.go:56, 88, 141, 193
 Finish(s) ==
@@ -173,32 +184,32 @@ Finish(s) ==
                         [] s.op = "get" -> s.from = None
                         [] s.op = "put" -> s.accepted < EffMin(s.min)]
 
-NextNode(s) == ByDist(s.queue)[1]
+NextNode(s) == ByDist(s.queue, s.dist)[1]
 
 \* will the next loop iteration invoke Ask?
 WillAsk(s) ==
     /\ s.queue # <<>>
     /\ LET node == NextNode(s) IN
        /\ (Orig \/ node \notin s.visited)
-       /\ CASE s.op = "findnode" -> Min2(node, IF s.closest = None THEN node ELSE s.closest) # Target
-            [] s.op = "get" -> ~(s.from # None /\ Lt(s.from, node))
+       /\ CASE s.op = "findnode" -> FNClosest(s, node) # Target
+            [] s.op = "get" -> ~(s.from # None /\ Lt(s.dist, s.from, node))
             [] OTHER -> TRUE
 
 \* one iteration of `for len(nodes) > 0` (or the code after the loop)
 Step(s, r, bad) ==
     IF s.queue = <<>> THEN Finish(s)
-    ELSE LET q1 == ByDist(s.queue)                                      \* :212 sort
+    ELSE LET q1 == ByDist(s.queue, s.dist)                              \* :212 sort (stable)
              q2 == IF Len(q1) > s.n THEN SubSeq(q1, 1, s.n) ELSE q1     \* :215 truncate to n
-             node == q2[1]                                              \* :219 pop takes the nearest
-             rest == Tail(q2)
+             node == q2[1]                                              \* :219 pop: swaps the first and the last
+             rest == IF Len(q2) = 1 THEN <<>>                           \*      element and takes the nearest
+                     ELSE <<q2[Len(q2)]>> \o SubSeq(q2, 2, Len(q2) - 1)
              s0 == [s EXCEPT !.queue = rest, !.steps = @ + 1]
          IN IF ~Orig /\ node \in s.visited THEN s0                      \* :220 duplicate of a contacted peer: skip
             ELSE LET s1 == [s0 EXCEPT !.visited = @ \cup {node}]
                      cb == Callback(s1, node, r, bad)
                  IN IF ~cb.cont THEN Finish(cb.s)                       \* :226 break
                     ELSE [cb.s EXCEPT !.queue =
-                             ByDist(Admit(rest, node, cb.new, IF Orig THEN {} ELSE cb.s.visited))]
-                    \* (stored sorted: the loop sorts before it looks at the queue again)
+                             Admit(rest, node, cb.new, IF Orig THEN {} ELSE cb.s.visited, s.dist)]
 
 \* the topology T is a function from (some) node ids to responder records
 RespOf(T, m) == IF m \in DOMAIN T THEN T[m] ELSE NoResp
@@ -218,7 +229,8 @@ Res(s) == [closest |-> s.closest, contacted |-> s.contacted, responded |-> s.res
 Asked(order) == ToSet(order)
 Responded(order, T) == {m \in Asked(order) : ~T[m].fail}
 Accepting(order, T) == {m \in Responded(order, T) : T[m].accept}
-Nearest(S) == IF S = {} THEN None ELSE CHOOSE x \in S : \A y \in S : x <= y
+\* x is (one of) the nearest of S; None for the empty set
+IsNearest(D, x, S) == IF S = {} THEN x = None ELSE x \in S /\ \A y \in S : DOf(D, x) <= DOf(D, y)
 
 \* each distinct node is contacted at most once
 AtMostOnceP(order) == \A i, j \in 1..Len(order) : i # j => order[i] # order[j]
@@ -230,12 +242,12 @@ TerminatesP(nonterm) == ~nonterm
 \* nearest among the nodes Ask was invoked on, or among those that answered (for put also: among
 \* those that accepted); find-node may in addition report the target itself once its id was learned
 \* (it stops there without asking it).
-ClosestTruthfulP(op, order, T, tk, res) ==
+ClosestTruthfulP(op, D, order, T, tk, res) ==
     IF op = "join" THEN TRUE
     ELSE LET base == {Asked(order), Responded(order, T)}
                         \cup (IF op = "put" THEN {Accepting(order, T)} ELSE {})
              sets == base \cup (IF op = "findnode" /\ tk THEN {S \cup {Target} : S \in base} ELSE {})
-         IN res.closest \in {Nearest(S) : S \in sets}
+         IN \E S \in sets : IsNearest(D, res.closest, S)
 
 \* a returned value came from a contacted node and passed validation:
 \*  - the bytes returned are bytes the node reported as From served (valsrc: the contacted nodes whose
@@ -265,12 +277,12 @@ ErrIffBelowMinP(op, min, order, T, err) ==
 NoPanicP(panic) == ~panic
 
 \* names of the operators that are false on a finished run
-Falsified(op, min, vmode, order, T, tk, res, err, panic, nonterm) ==
+Falsified(op, min, vmode, D, order, T, tk, res, err, panic, nonterm) ==
     IF panic THEN {"NoPanic"}
     ELSE IF nonterm THEN {"Terminates"} \cup (IF AtMostOnceP(order) THEN {} ELSE {"AtMostOnce"})
     ELSE {n \in {"AtMostOnce", "ClosestTruthful", "ValueFromContacted", "AcceptedDistinct", "ErrIffBelowMin"} :
             CASE n = "AtMostOnce" -> ~AtMostOnceP(order)
-              [] n = "ClosestTruthful" -> ~ClosestTruthfulP(op, order, T, tk, res)
+              [] n = "ClosestTruthful" -> ~ClosestTruthfulP(op, D, order, T, tk, res)
               [] n = "ValueFromContacted" -> ~ValueFromContactedP(op, vmode, order, T, res, err)
               [] n = "AcceptedDistinct" -> ~AcceptedDistinctP(op, order, T, res)
               [] n = "ErrIffBelowMin" -> ~ErrIffBelowMinP(op, min, order, T, err)}
@@ -285,8 +297,9 @@ Responders(op) ==
      val : IF op = "get" THEN ValClasses ELSE {0}]
 
 Init == \E op \in Ops, init \in Initials :
-            \E min \in (IF op = "put" THEN Mins ELSE {0}), vm \in (IF op = "get" THEN VModes ELSE {0}) :
-                st = Start(op, init, min, vm)
+            \E min \in (IF op = "put" THEN Mins ELSE {0}), vm \in (IF op = "get" THEN VModes ELSE {0}),
+               d \in ({IdDist(N)} \cup (IF op \in {"get", "put"} THEN Dists ELSE {})) :
+                st = Start(op, init, min, vm, d)
 
 Iterate == /\ st.pc = "iter"
            /\ IF WillAsk(st) THEN \E r \in Responders(st.op) : st' = Step(st, r, {})
@@ -306,10 +319,8 @@ NoPanic == NoPanicP(st.pc = "panic")
 MaxInit == IF Initials = {} THEN 0 ELSE CHOOSE k \in 0..100 : (\A i \in Initials : Len(i) <= k) /\ (\E i \in Initials : Len(i) = k)
 Terminates == /\ st.steps <= N + MaxInit + 1
               /\ Len(st.order) <= N
-ClosestTruthful == Done => ClosestTruthfulP(st.op, st.order, st.info, st.tk, Res(st))
+ClosestTruthful == Done => ClosestTruthfulP(st.op, st.dist, st.order, st.info, st.tk, Res(st))
 ValueFromContacted == Done => ValueFromContactedP(st.op, st.vmode, st.order, st.info, Res(st), st.err)
 AcceptedDistinct == Done => AcceptedDistinctP(st.op, st.order, st.info, Res(st))
 ErrIffBelowMin == Done => ErrIffBelowMinP(st.op, st.min, st.order, st.info, st.err)
-\* the queue is kept in the order the loop would sort it into
-QueueSorted == st.steps > 0 => st.queue = ByDist(st.queue)
 =============================================================================
